@@ -660,6 +660,15 @@ def access_kind(f, n):
             if len(ks) >= 2 and ks[1] is cur:
                 cur = p
                 continue
+        if k == 'CXXMemberCallExpr' and any(a is cur for a in kids(p)[1:]):
+            # an argument of a member call: written iff bound to a non-const reference parameter
+            cal = p.get('callee', {})
+            args = kids(p)[1:]
+            ai = [a is cur for a in args].index(True)
+            ptypes = _param_types(cal.get('fid', ''))
+            if ai < len(ptypes) and ptypes[ai].endswith('&') and not ptypes[ai].endswith('&&') and not ptypes[ai].startswith('const '):
+                return 'rmw'
+            return 'read'
         if k == 'CXXMemberCallExpr':
             # obj.method(): child 0 is MemberExpr(method) whose child is the object
             cal = p.get('callee', {})
@@ -704,7 +713,7 @@ def access_kind(f, n):
                 if ai == 0:
                     return 'read' if cal.get('const') else 'rmw'
                 ai -= 1
-            if ai < len(ptypes) and ptypes[ai].endswith('&') and not ptypes[ai].startswith('const '):
+            if ai < len(ptypes) and ptypes[ai].endswith('&') and not ptypes[ai].endswith('&&') and not ptypes[ai].startswith('const '):
                 return 'rmw'
             return 'read'
         return 'read'
